@@ -42,7 +42,9 @@ Spec == Init /\ [][Next]_b
 
 TViewOk == /\ EncViaT(St(b), Ky(b)) = Enc(St(b), Ky(b))
            /\ DecViaT(St(b), Ky(b)) = Dec(St(b), Ky(b))
-InversesOk == Inverses(St(b))
+InversesOk == /\ Inverses(St(b))
+              /\ EncInv(Enc(St(b), Ky(b)), Ky(b)) = St(b) /\ DecInv(Dec(St(b), Ky(b)), Ky(b)) = St(b)
+              /\ HashFinishInv(HashFinish(<<St(b), Ky(b), St(b + 1), Ky(b + 2)>>)) = <<St(b), Ky(b), St(b + 1), Ky(b + 2)>>
 CombinedOk == \A n \in 1..2 :
    LET r == HashAndFill(Buf(b, n), Buf(b + 1, 1))
        g == Gen1(Buf(b + 1, 1), n)
